@@ -161,6 +161,8 @@ class HTTPFile(io.IOBase):
         This calls `get_cache_chunk` and thus downloads cache
         chunks when necessary.
         """
+        # there is nothing to read beyond the end of the resource
+        stop = max(start, min(stop, self.length))
         toread = stop - start
         # compute the chunk indices between start and stop
         chunk_start = np.int64(start // self._chunk_size)
@@ -168,11 +170,12 @@ class HTTPFile(io.IOBase):
         data = b""
         pos = start
         for chunk_index in range(chunk_start, chunk_stop):
+            if toread == 0:
+                # do not download (and cache) a chunk that is not needed
+                break
             chunk = self.get_cache_chunk(chunk_index)
             chunk_start = pos % self._chunk_size
-            if toread == 0:
-                break
-            elif chunk_start + toread >= self._chunk_size:
+            if chunk_start + toread >= self._chunk_size:
                 data += chunk[chunk_start:]
                 chunks_read = self._chunk_size - chunk_start
             else:
